@@ -31,7 +31,7 @@ ASSUMPTIONS = ["labels and predictions are among the classes (otherwise KeyError
                "positive weights / non-negative entries; float entries that are not small dyadics are compared up to rounding "
                "(4 ulp per sum) and not sent to the exact model"]
 
-NAMES = ["ant", "bee", "cat", "dog", "eel", "fox", "gnu"]      # sorted: id k <-> NAMES[k]
+NAMES = ["ant", "beetle", "cat", "dogfish", "eel", "fox", "gnu-antelope"]      # sorted: id k <-> NAMES[k]
 INT_POOL = [-3, 0, 1, 2, 4, 7, 10]
 Q_NAMES = ["tp", "tn", "fp", "fn", "p", "n", "top", "ton"]
 R_NAMES = ["tpr", "tnr", "fpr", "fnr", "topr", "tonr", "ppv", "npv", "fdr", "for_", "class_accuracy", "class_error_rate",
